@@ -81,7 +81,7 @@ impl Check for C17 {
     }
 
     fn cases(&self, tier: Tier) -> u64 {
-        tier.pick(16_000, 500_000)
+        tier.pick(40_000, 500_000)
     }
 
     fn max_shrink_iters(&self) -> u32 {
